@@ -42,6 +42,17 @@ MCPut == /\ G /\ nextVal <= MaxVal
                   /\ Rec(Op("PUT", c, p, nextVal))
                   /\ used' = Drop(Touch(used, c), (ClassesOf(order) \ ClassesOf(order')) \ {c})
          /\ nextVal' = nextVal + 1
+\* no value destructor: the same value object again (also under the key object already stored), or NULL
+MCPutAgain == /\ G /\ ~dv /\ nextVal <= MaxVal /\ nextVal' = nextVal + 1     \* (counts against the same budget of puts)
+              /\ \E c \in Classes, p \in Ptrs, v \in {0} \cup {e.v : e \in All} :
+                    LET i == IdxOf(c)
+                        K1 == IF i # 0 /\ order[i].p # p THEN {KeyOf(order[i])} ELSE {}
+                        mid == Append(IF i # 0 THEN WithoutIdx(order, i) ELSE order, [c |-> c, p |-> p, v |-> v])
+                        over == Len(mid) > max
+                        vic == mid[VictimIdx(mid)]
+                    IN /\ Put(c, p, v, TRUE, DK(IF over THEN K1 \cup {KeyOf(vic)} ELSE K1), <<>>)
+                       /\ Rec(Op("PUT", c, p, v))
+                       /\ used' = Drop(Touch(used, c), (ClassesOf(order) \ ClassesOf(order')) \ {c})
 MCFind == G /\ UNCHANGED nextVal /\ \E c \in Classes, p \in Ptrs, v \in 0..MaxVal :
               /\ Find(c, TRUE, v, <<>>, <<>>) /\ Rec(Op("FIND", c, p, 0))
               /\ used' = IF policy = "lru" /\ Has(c) THEN Touch(used, c) ELSE used
@@ -55,7 +66,7 @@ MCUseLru == G /\ UNCHANGED nextVal /\ \E v \in 0..MaxVal : UseLru(v, <<>>, <<>>)
               /\ used' = IF order = <<>> THEN used ELSE Touch(used, order[1].c)
 MCGetMru == G /\ UNCHANGED <<nextVal, used>> /\ \E v \in 0..MaxVal : GetMru(v, <<>>, <<>>) /\ Rec(Op("GETMRU", 0, 0, 0))
 
-MCNext == MCPut \/ MCFind \/ MCRemove \/ MCClear \/ MCUseLru \/ MCGetMru
+MCNext == MCPut \/ MCPutAgain \/ MCFind \/ MCRemove \/ MCClear \/ MCUseLru \/ MCGetMru
 MCSpec == MCInit /\ [][MCNext]_mcvars
 
 -----------------------------------------------------------------------------
@@ -64,12 +75,12 @@ MCSpec == MCInit /\ [][MCNext]_mcvars
 (* also every successful lookup and use_lru_element.                                              *)
 RetainsInserted == [][MCPut => (\E i \in 1..Len(order') : order'[i].v = nextVal)]_mcvars
 EvictsOnlyOnOverflow ==                       \* a put drops a class other than its own only if the cache was full
-    [][MCPut => (ClassesOf(order) \ ClassesOf(order') # {} => Len(order) = max)]_mcvars
-EvictsAtMostOne == [][MCPut => Cardinality(ClassesOf(order) \ ClassesOf(order')) <= 1]_mcvars
+    [][(MCPut \/ MCPutAgain) => (ClassesOf(order) \ ClassesOf(order') # {} => Len(order) = max)]_mcvars
+EvictsAtMostOne == [][(MCPut \/ MCPutAgain) => Cardinality(ClassesOf(order) \ ClassesOf(order')) <= 1]_mcvars
 (* the victim named by the policy, in terms of the use history before the put:                    *)
 (* fifo: first inserted; lru: least recently used; lifo: the latest inserted before the new one   *)
 PolicyVictim ==
-    [][MCPut => \A x \in ClassesOf(order) \ ClassesOf(order') :
+    [][(MCPut \/ MCPutAgain) => \A x \in ClassesOf(order) \ ClassesOf(order') :
             x = IF policy = "lifo" THEN used[Len(used)] ELSE used[1]]_mcvars
 UsedMatches == ClassesOf(order) = Range(used) /\ Len(used) = Len(order)
 UsedIsOrder == \A i \in 1..Len(order) : order[i].c = used[i]
